@@ -455,6 +455,8 @@ def run(rep, tier):
             rep.fail('R03.9', '%s|deep completion stops at the first member' % q.split('::')[1], locstr(b_), 'the loop at %s adds the ancestors of the completion members but leaves at the first one; the other engine adds them for every member' % locstr(lp))
         if not brk:
             rep.ok('R03.9', q.split('::')[1] + '|deep completion', 'every completion member contributes its ancestors (%d loop(s))' % n_)
+        for lp_, gd_ in _sk.completion_closure_wholesale_guard(fb.fn(q)):
+            rep.fail('R03.9', '%s|deep completion switched as a whole' % q.split('::')[1], locstr(gd_), 'the loop at %s runs only if NO completion member is a direct child; the large engine decides per member' % locstr(lp_))
 
     lt, lsite = large_conflict_terms(fb)
     want_l = {'source-ancestry#1', 'source-ancestry#2', 'exit-overlap#1'}
